@@ -5,7 +5,7 @@
  *   MOD len npat marker rst nseq / XXO .. / ROWS .. / ENTRY .. / SEQCTL .. / SCANORD .. / SCANROW .. / SCANNUM .. / TIME ..
  *   S <state>                        initial state after xmp_start_player
  *   C <op> <arg> <ret> | <state>     a control call
- *   F <ret> | <state> | <pos row frame sequence loop_count time from xmp_get_frame_info>
+ *   F <ret> | <state> | <pos row frame sequence loop_count frame_time(us) from xmp_get_frame_info>
  *   ENDRUN
  * <state> = pos ord row frame repos sequence loop_count speed num_rows end_point jumpline jump pbreak delay clean
  */
@@ -63,7 +63,7 @@ int main(void)
 				for (i = 0; i < n; i++) {
 					r = xmp_play_frame(c);
 					xmp_get_frame_info(c, &fi);
-					printf("F %d | ", r); pstate(ctx); printf(" | %d %d %d %d %d %d\n", fi.pos, fi.row, fi.frame, fi.sequence, fi.loop_count, fi.time);
+					printf("F %d | ", r); pstate(ctx); printf(" | %d %d %d %d %d %d\n", fi.pos, fi.row, fi.frame, fi.sequence, fi.loop_count, fi.frame_time);
 					if (r < 0) { ended = 1; break; }
 				}
 				continue;
